@@ -757,6 +757,27 @@ def check_firewall(ctx, chk):
     chk.ob("C15.firewall", "a rule is stored for every connected ordered pair",
            bool(f_implies(connected, _drop_atoms(cover, struct))),
            f"union of store conditions: {f_show(cover)[:400]}", fi.module.path)
+    # the pool that drawn services are removed from is private to one (src, dest) rule: removing
+    # from the per-subnet table itself would starve every later rule into the same destination
+    removes = [ev for ev in s.events if ev.kind == "mcall"
+               and ev.data["name"] in ("remove", "discard", "pop", "clear", "difference_update")]
+    for ev in removes:
+        r = ev.data["recv"]
+        private = r[0] in ("setlit", "listobj", "dictobj", "comp") or \
+            (r[0] == "mcall" and r[2] == "copy") or \
+            (r[0] == "call" and r[1] in ("builtins.set", "builtins.list", "builtins.sorted",
+                                         "copy.copy", "copy.deepcopy"))
+        shared = r[0] == "sub" and r[1][0] in ("dictobj", "attr")
+        if private or shared:
+            chk.ob("C15.firewall", f"_generate_firewall: {ev.data['name']}() at line "
+                   f"{ev.loc.split(':')[1]} works on a private copy of the destination's services",
+                   private, f"receiver {cn.show(r)[:160]} is the shared per-subnet table entry: "
+                   "services removed for one rule are missing from every later rule into the same "
+                   "destination subnet", ev.loc)
+        else:
+            chk.undecided("C15.firewall", f"_generate_firewall: {ev.data['name']}() at line "
+                          f"{ev.loc.split(':')[1]} works on a private copy of the destination's "
+                          "services", f"receiver {cn.show(r)[:160]} not classified", ev.loc)
     # sampling branch: at most `restrictiveness` services
     # (the loop may live in a helper that receives the restrictiveness as an argument)
     import re
